@@ -454,8 +454,9 @@ func canonErr(err error) interface{} {
 			rn = reasonName(ue.Reason())
 		}
 		msg := ue.Message()
-		if len(msg) > 300 {
-			msg = msg[:300]
+		if len(msg) > 600 {
+			// keep both ends: the message ends with the path and the source
+			msg = msg[:300] + " ... " + msg[len(msg)-280:]
 		}
 		return J{"err": J{"typed": true, "reason": rn, "class": cls, "path": ue.Path(), "text": msg}}
 	}
